@@ -489,6 +489,76 @@ def c20(ctx):
 
 
 # ---------------------------------------------------------------------------
+# C10  file rules see every changed path verbatim (real Git, odd path names)
+
+TREE_DEVS = {"QuotedPathsReachMatcher", "SpaceTruncatesTreeListing", "TreeWriterUnquotesNames"}
+
+
+def c10(ctx):
+    q = ctx.quick()
+    known, asbuilt = devsets("C10")
+    asbuilt = (asbuilt & TREE_DEVS) | known
+    base = {"Dev": set(), "EmitMod": 1, "EmitRes": 0}
+    small = {"root", "linear", "back", "unrel"}
+    # (1) exhaustive: the matcher as designed refines the declarative rule; a net change of a protected path is vouched for
+    mc1 = model_check(ctx, "MC_Trees", dict(constants=dict(base, Shapes=small | ({"two"} if not q else set())),
+                                            invariants=["Refines", "EndToEnd"]), workers=4, timeout=3600)
+    mc2 = model_check(ctx, "MC_Trees", dict(constants=dict(base, Shapes={"merge", "mergeall"}),
+                                            invariants=["Refines", "EndToEnd"]), workers=4, timeout=3600)
+    # the proviso of EndToEnd is needed: TLC must find the revert-by-merge witness
+    r = run_tlc(ctx, "MC_Trees", dict(constants=dict(base, Shapes={"back"}), invariants=["ExemptionMatters"]), workers=2, timeout=1800)
+    if r.error or not r.violated:
+        raise Infra("ExemptionMatters was expected to fail (vacuity guard): %s" % (r.error or "no violation"))
+    # (2) emission: a seeded 1/mod sample of every shape
+    mod = 41 if q else 7
+    scns, seen = [], set()
+    for shapes in (small | {"two"}, {"merge", "mergeall"}):
+        r = run_tlc(ctx, "MC_Trees", dict(constants=dict(base, Shapes=shapes, EmitMod=mod, EmitRes=ctx.seed % mod), constraints=["Emit"]),
+                    workers=4, timeout=3600)
+        if r.error or r.violated:
+            raise Infra("scenario emission failed: %s" % (r.error or r.violated))
+        for x in r.records:
+            k = json.dumps(x, sort_keys=True)
+            if x.get("t") == "SCN" and k not in seen:
+                seen.add(k)
+                scns.append(x)
+    if not scns:
+        raise Infra("TLC emitted no scenarios")
+    scn_path = os.path.join(ctx.scratch, "scn.ndjson")
+    write_ndjson(scn_path, scns)
+    trace = os.path.join(ctx.scratch, "trace.ndjson")
+    run_vh(ctx, ["trees", "-scn", scn_path, "-out", trace, "-seed", ctx.seed, "-n", 400 if q else 4000], timeout=6 * 3600)
+    cls = validate_trace(ctx, "Trace_Trees", trace, {"Known": known, "AsBuilt": asbuilt}, shards=4 if q else 12)
+    lines = {x["id"]: x for x in read_ndjson(trace)}
+    tally = Tally(ctx)
+    for rec in cls:
+        x = rec["r"]
+        ln = lines[rec["id"]]
+        item = None
+        if x["cls"] != "conform":
+            n = ln["sc"]["new"] - 1
+            item = {"why": x.get("why"), "names": ln["names"], "pattern": ln["pattern"], "scenario": ln["sc"], "verdict": ln["verdict"],
+                    "changed": ln["changed"], "listed": ln["listed"][n], "entries": ln["entries"][n], "rewrite": ln["rewrite"][n],
+                    "lookup": ln["lookup"][n], "backend": ln["backend"]}
+        odd = any(c != "plain" for c in ln["cls"].values())
+        tally.add(x["cls"], item, dev=x.get("dev"), nontrivial_key=rec["id"] if odd and not ln["sc"]["star"] else None)
+    return finish(ctx, tally, samples=[{"names": lines[1]["names"], "pattern": lines[1]["pattern"], "scenario": lines[1]["sc"]}],
+                  traces=len(cls), exhaustive=False,
+                  assumptions=["commit graphs: root, linear (one and two new commits), merge of a side branch (old tip before / after the fork), "
+                               "merge back of an ancestor, merge of unrelated history; three path atoms (two files, one file in a directory)",
+                               "each scenario is built with a seeded assignment of name classes (plain, space, git-quoted: tab / double quote / "
+                               "backslash / control / multi-byte UTF-8 / DEL, glob metacharacters) to the atoms, exported to an on-disk repository "
+                               "and observed through the real gitinterface.Repository; one scenario in eight is verified entirely on the on-disk "
+                               "repository, the others read policy, log and signatures from the in-memory store and the commit range and changed "
+                               "paths from real Git", "newline in path names is outside the property's alphabet",
+                               "file rules with threshold 1 and one trusted principal; approvals for file rules are not exercised",
+                               "for merges the documented rule of GetFilePathsChangedByCommit is the oracle: a merge that is tree-same to its "
+                               "last parent changes nothing, otherwise the union of the differences to every parent; TLC shows (ExemptionMatters) "
+                               "that this exemption lets a merge revert a protected path without an authorised signature -- recorded as a design "
+                               "observation, not as a violation"])
+
+
+# ---------------------------------------------------------------------------
 # C12  policy ref advances only to verified descendants that verification accepts
 
 def c12(ctx):
@@ -606,6 +676,7 @@ def c08(ctx):
 CHECKS = {
     "C08": c08,
     "C12": c12,
+    "C10": c10,
     "C20": c20,
     "C13": c13,
     "C01": c01,
